@@ -136,6 +136,7 @@ func c07Case(t *testing.T, id int, seed uint64, out *Out) {
 			}
 		}
 	}
+	mainKey := 2
 	pushEntry := make([]int, k)
 	pushCommit := make([]int, k)
 	refPushes := map[string][]int{}
@@ -152,7 +153,7 @@ func c07Case(t *testing.T, id int, seed uint64, out *Out) {
 		signer := kOutsider
 		if pp.valid {
 			if pp.ref == main {
-				signer = 2
+				signer = mainKey
 			} else {
 				signer = 3
 			}
@@ -203,13 +204,18 @@ func c07Case(t *testing.T, id int, seed uint64, out *Out) {
 				}
 			}
 		}
-		if r.Chance(10) {
-			np := p
+		if r.Chance(18) {
+			// a policy update that swaps who may push to main (2 <-> 3): later "valid" pushes are
+			// signed by whoever the state in force names, so a dropped or misplaced policy entry shows
+			np := clonePolicy(p)
 			np.Root.Version++
-			np.Files = append([]RuleFileSpec{}, p.Files...)
-			f := np.Files[0]
-			f.Version++
-			np.Files[0] = f
+			np.Files[0].Version++
+			if mainKey == 2 {
+				mainKey = 3
+			} else {
+				mainKey = 2
+			}
+			np.Files[0].Rules[0].Principals = []int{1000 + mainKey}
 			p = np
 			b.AddPolicy(p, r.Bool())
 		}
